@@ -33,7 +33,7 @@ func init() {
 		Funcs: []string{"SimpleAPIDef", "APIMake", "decodeResponseBody", "JSONBody", "GeneralMultipartSerializer", "NewSimpleAPI"},
 		Gen:   genC17,
 		Rule: "API definitions drawn from the scenario tape: constructor in {Get, Delete, Post/Put/Patch JSON, Post/Put/Patch multipart, generic APIMakeDoNewRequest* with any method} x relative template with 0..4 placeholders x PathParam (missing, extra, multiple keys, printable values) " +
-			"x body x DefaultHeader x fault in {none, serializer error, transport error, torn body, empty body, malformed JSON, deserializer returning (nil, err), missing multipart file}; the returned MonadIO is evaluated 0..3 times via Eval or Subscribe on a handler; " +
+			"x body x DefaultHeader x fault in {none, serializer error, transport error, torn body, empty body, malformed JSON, request body reader failing half-way, deserializer returning (nil, err), missing multipart file}; the returned MonadIO is evaluated 0..3 times via Eval or Subscribe on a handler; " +
 			"a reference request builder gives method/URL/header/body; recorded requests == evaluations; failures surface as Err, never as a panic; non-trivial = >=1 evaluation with >=1 placeholder or an injected fault; distinct = distinct (definition, params, fault, evaluations)" +
 			" Later additions: FlatMap composition of the API's MonadIO, default header that already names a Content-Type, empty non-nil default header, interceptor refusal as a fault, timeout settings up to MaxInt64, concurrent JSON neighbour.",
 		Real:        []string{"network.SimpleAPIDef + APIMake* constructors", "network.SimpleHTTPDef", "net/http.Client", "encoding/json", "mime/multipart", "fpgo.MonadIODef", "fpgo.HandlerDef"},
@@ -76,10 +76,11 @@ type c17Resp struct {
 }
 
 type c17Rec struct {
-	method string
-	url    string
-	header http.Header
-	body   []byte
+	method  string
+	url     string
+	header  http.Header
+	body    []byte
+	bodyErr bool // the request body could not be read to its end
 }
 
 type c17Transport struct {
@@ -114,8 +115,15 @@ func (r *c17TornReader) Close() error { return nil }
 func (tr *c17Transport) RoundTrip(req *http.Request) (*http.Response, error) {
 	rec := c17Rec{method: req.Method, url: req.URL.String(), header: req.Header.Clone()}
 	if req.Body != nil {
-		rec.body, _ = io.ReadAll(req.Body)
+		var rerr error
+		rec.body, rerr = io.ReadAll(req.Body)
 		req.Body.Close()
+		if rerr != nil {
+			// as net/http does: a request whose body cannot be read to its end fails with that error
+			rec.bodyErr = true
+			tr.recs = append(tr.recs, rec)
+			return nil, rerr
+		}
 	}
 	tr.recs = append(tr.recs, rec)
 	// a request must carry its own copy of the default header
@@ -247,7 +255,7 @@ func genC17(t *simrt.Tape, tier string) Scenario {
 	if sc.BodyKind != "obj" && sc.BodyKind != "none" && !(sc.Ctor == "PostJSON" || sc.Ctor == "PutJSON" || sc.Ctor == "PatchJSON") {
 		sc.BodyKind = "obj" // the zero-valued bodies (0, "", a zero struct: values like any other) go through the JSON constructors
 	}
-	faults := []string{"none", "none", "none", "serializer", "transport", "torn", "empty", "malformed", "deserializer-nil", "missing-file", "read-error-after-body", "interceptor-error", "trailing-data"}
+	faults := []string{"none", "none", "none", "serializer", "transport", "torn", "empty", "malformed", "deserializer-nil", "missing-file", "read-error-after-body", "interceptor-error", "trailing-data", "request-body-read-error"}
 	sc.Fault = faults[t.Choose(len(faults))]
 	sc.TornAt = t.Choose(12)
 	sc.Evals = []int{1, 0, 2, 3}[t.Choose(4)]
@@ -361,6 +369,26 @@ func (sc *c17Scenario) Run(s *simrt.Sim) {
 	if sc.Fault == "serializer" {
 		api.RequestSerializerForJSON = func(body interface{}) (io.Reader, error) { return nil, errC17Serializer }
 		api.RequestSerializerForMultipart = func(body *network.MultipartForm) (io.Reader, string, error) { return nil, "", errC17Serializer }
+	}
+	if sc.Fault == "request-body-read-error" {
+		// the serializer hands out a streaming reader that breaks half-way (a pipe whose writer failed, a file on a bad disk)
+		origJ, origM := api.RequestSerializerForJSON, api.RequestSerializerForMultipart
+		api.RequestSerializerForJSON = func(body interface{}) (io.Reader, error) {
+			r, err := origJ(body)
+			if err != nil || r == nil {
+				return r, err
+			}
+			data, _ := io.ReadAll(r)
+			return &c17TornReader{data: data, at: len(data) / 2}, nil
+		}
+		api.RequestSerializerForMultipart = func(body *network.MultipartForm) (io.Reader, string, error) {
+			r, ct, err := origM(body)
+			if err != nil || r == nil {
+				return r, ct, err
+			}
+			data, _ := io.ReadAll(r)
+			return &c17TornReader{data: data, at: len(data) / 2}, ct, nil
+		}
 	}
 	// (otherwise the library's own serializers are used untouched: the request body the transport reads
 	// must be what the serializer produced for THIS evaluation, also when another JSON request is being
@@ -543,7 +571,8 @@ func (sc *c17Scenario) Run(s *simrt.Sim) {
 			add("response", "nil-response", fmt.Sprintf("evaluation %d returned a nil *APIResponse", i))
 			continue
 		}
-		failing := wantSent == 0 || sc.Fault == "transport" || sc.Fault == "torn" || sc.Fault == "empty" || sc.Fault == "malformed" || sc.Fault == "trailing-data" || sc.Fault == "deserializer-nil" || sc.Fault == "read-error-after-body"
+		bodyFault := sc.Fault == "request-body-read-error" && sc.BodyKind != "none" && (sc.isJSON() || sc.isMultipart())
+		failing := wantSent == 0 || bodyFault || sc.Fault == "transport" || sc.Fault == "torn" || sc.Fault == "empty" || sc.Fault == "malformed" || sc.Fault == "trailing-data" || sc.Fault == "deserializer-nil" || sc.Fault == "read-error-after-body"
 		if failing {
 			sc.probes["fault-"+sc.Fault]++
 			s.Fault(sc.Fault)
@@ -623,6 +652,9 @@ func (sc *c17Scenario) checkRequest(rec c17Rec, serialized [][]byte, add func(cl
 				ct = v
 			}
 		}
+	}
+	if rec.bodyErr {
+		return // (the body was cut short by the injected read error: nothing to compare)
 	}
 	switch {
 	case sc.isJSON():
